@@ -123,15 +123,19 @@ def config_label(c):
 
 def run_writer(doc, cfg):
   """Returns (output string or None, exception text)."""
+  from .core import AltContext, alt_for
+  body = doc.get_body()
+  size = sum(1 for _ in body.dfs_iterator()) if body is not None else 0
   try:
-    if cfg["fmt"] == "srt":
-      import ttconv.srt.writer as w
-      from ttconv.srt.config import SRTWriterConfiguration
-      return w.from_model(doc, SRTWriterConfiguration(text_formatting=bool(cfg["tf"]))), ""
-    import ttconv.vtt.writer as w
-    from ttconv.vtt.config import VTTWriterConfiguration
-    return w.from_model(doc, VTTWriterConfiguration(line_position=bool(cfg["lp"]), text_align=bool(cfg["ta"]),
-                                                     cue_id=bool(cfg["id"]))), ""
+    with AltContext(alt_for(("cues", size, cfg["fmt"], cfg.get("tf", 1), cfg.get("lp", 0)))) as ac:
+      if cfg["fmt"] == "srt":
+        import ttconv.srt.writer as w
+        from ttconv.srt.config import SRTWriterConfiguration
+        return w.from_model(doc, SRTWriterConfiguration(text_formatting=bool(cfg["tf"])), ac.progress), ""
+      import ttconv.vtt.writer as w
+      from ttconv.vtt.config import VTTWriterConfiguration
+      return w.from_model(doc, VTTWriterConfiguration(line_position=bool(cfg["lp"]), text_align=bool(cfg["ta"]),
+                                                       cue_id=bool(cfg["id"])), ac.progress), ""
   except Exception as ex:  # pylint: disable=broad-except
     return None, type(ex).__name__ + ": " + str(ex)[:120]
 
